@@ -483,3 +483,5 @@ _quick("C03", "C03_sharedexpire", "three holders of a shared key (Count 2, E = 3
 _quick("C09", "C09_search", "the leader's resume-by-position lookup on a ring of three records for ANY announced 16-byte position (16 solver variables): found only if the position is byte for byte (file offset, file index and command time) that of a record in the ring, with the cursor on that record; otherwise the follower is told to start over; each record's own position is found", ["-witness", "5"], reach=["end", "found", "not-found"])
 
 _quick("C18", "C18_manyreconnects", "N = 3 / 5 / 6 earlier connections under one client id each leave a queued request and close; a live connection announces the id and receives all N grants (it adopts more proxies than the four kept across the server's session maintenance); optionally the maintenance runs; it closes, another connection announces the id; the N holds expire: every EXPRIED notice reaches that connection exactly once, nothing is written to the closed one or to an unrelated client", ["-witness", "1"], reach=["end", "maintained"])
+
+_quick("C11", "C11_followerack", "the follower's side of an acknowledgement (real ReplicationAckDB follower functions, acknowledgements captured on the connection to the leader): four records one after the other (pooled entries recycled from the second on), each applied and flushed in either order, the flush succeeding or failing: nothing sent after the first event alone, exactly one 64-byte acknowledgement naming the record after the second, positive only if replay and flush both succeeded", ["-witness", "20"])
